@@ -40,6 +40,7 @@ type Run struct {
 	notes        map[string]interface{}
 	known        []Known
 	childViols   []childViolation
+	childNew     int
 	childOut     string
 }
 
@@ -85,7 +86,7 @@ func Start(id, level string) *Run {
 		distinct: map[uint64]struct{}{}, counters: map[string]int64{}, sets: map[string]map[string]struct{}{},
 		knownHit: map[string]int{}, notes: map[string]interface{}{}, maxSamples: 6}
 	r.childOut = os.Getenv("VERIF_CHILD_OUT")
-	if b, err := os.ReadFile(filepath.Join(VerifDir, "known_findings.json")); err == nil && r.childOut == "" {
+	if b, err := os.ReadFile(filepath.Join(VerifDir, "known_findings.json")); err == nil {
 		var kf knownFile
 		if json.Unmarshal(b, &kf) == nil {
 			for _, k := range kf.Findings {
@@ -195,9 +196,20 @@ func (r *Run) Violation(key, what string, replay interface{}) {
 	r.mu.Lock()
 	defer r.mu.Unlock()
 	if r.childOut != "" {
+		for _, k := range r.known {
+			if k.Key == key {
+				// forwarded once so that the parent prints KNOWN-FINDING; does not count
+				if r.knownHit[key] == 0 {
+					r.childViols = append(r.childViols, childViolation{key, what, nil})
+				}
+				r.knownHit[key]++
+				return
+			}
+		}
 		if len(r.childViols) < 50 {
 			r.childViols = append(r.childViols, childViolation{key, what, replay})
 		}
+		r.childNew++
 		return
 	}
 	for _, k := range r.known {
@@ -234,7 +246,7 @@ func (r *Run) Violation(key, what string, replay interface{}) {
 func (r *Run) Violations() int {
 	r.mu.Lock()
 	defer r.mu.Unlock()
-	return r.violations + len(r.childViols)
+	return r.violations + r.childNew
 }
 
 // Finish writes the evidence file and returns the process exit code.
